@@ -62,7 +62,8 @@ pub fn c13(ctx: &Ctx, subj: &dyn DynSubject, ty: &Ty, rep: &mut Report) {
         let cuts = ks(len, &mut ent, &enc.boundaries, budget);
         log.nontrivial = cuts.iter().any(|k| *k > 0);
         for &k in &cuts {
-            for (si, sched) in [WriteSchedule::FailAt { k, kind: io::ErrorKind::Other }, WriteSchedule::ZeroAt { k }, WriteSchedule::FailOnce { k }].into_iter().enumerate() {
+            let soft = if k % 2 == 0 { io::ErrorKind::WouldBlock } else { io::ErrorKind::TimedOut };
+            for (si, sched) in [WriteSchedule::FailAt { k, kind: io::ErrorKind::Other }, WriteSchedule::ZeroAt { k }, WriteSchedule::FailOnce { k }, WriteSchedule::FailOnceKind { k, kind: soft }].into_iter().enumerate() {
                 if si == 1 && k % 3 != 0 {
                     continue;
                 }
@@ -72,7 +73,7 @@ pub fn c13(ctx: &Ctx, subj: &dyn DynSubject, ty: &Ty, rep: &mut Report) {
                     _ => Some(64),
                 };
                 let what = format!("{:?} (buffered: {:?})", sched, buffered);
-                let one_shot = matches!(sched, WriteSchedule::FailOnce { .. });
+                let one_shot = matches!(sched, WriteSchedule::FailOnce { .. } | WriteSchedule::FailOnceKind { .. });
                 let (r, acc, src) = run(sched, buffered)?;
                 log.extra_evals += 1;
                 if k > 0 {
@@ -91,10 +92,10 @@ pub fn c13(ctx: &Ctx, subj: &dyn DynSubject, ty: &Ty, rep: &mut Report) {
             }
         }
         // flush failure
-        for buffered in [None, Some(16)] {
-            let (r, acc, src) = run(WriteSchedule::FlushFails, buffered)?;
+        for (buffered, sched) in [(None, WriteSchedule::FlushFails), (Some(16), WriteSchedule::FlushFails), (None, WriteSchedule::FlushInterrupted)] {
+            let what = format!("{:?} (buffered: {:?})", sched, buffered);
+            let (r, acc, src) = run(sched, buffered)?;
             log.extra_evals += 1;
-            let what = format!("flush failure (buffered: {:?})", buffered);
             match r {
                 Err(e) if e == "WriteError" => {}
                 other => return Err(Fail::new("flush-fault-not-reported", format!("{}: result is {:?} instead of Err(WriteError)", what, other)).env(json!({"schedule": what}))),
